@@ -38,7 +38,7 @@ import (
 
 // functions to translate (file → keys); everything else they call must be in the given API
 var opRoots = []string{
-	"mustTypeCheck", "forceShortCircuitType",
+	"typeCheck", "mustTypeCheck", "forceShortCircuitType",
 	"Value.Not", "Value.And", "Value.Or",
 	"Value.Negate", "Value.Absolute", "Value.Add", "Value.Subtract", "Value.Multiply", "Value.Divide", "Value.Modulo",
 	"Value.LessThan", "Value.GreaterThan", "Value.LessThanOrEqualTo", "Value.GreaterThanOrEqualTo",
@@ -65,7 +65,8 @@ const (
 	oMethod // a method expression Value.M passed as a function value
 	oVals   // ...Value
 	oNil
-	oUnit // a result that is not used (accuracy)
+	oUnit  // a result that is not used (accuracy)
+	oIndex // the index variable of a range loop: only error texts mention it, and they are not evaluated
 )
 
 func oLeanType(sh oShape) string {
@@ -114,6 +115,8 @@ func oGoTypeShape(n ast.Node, s string) oShape {
 		return oPtr
 	case "...Value":
 		return oVals
+	case "error":
+		return oErr
 	}
 	dieAt(n, "type %s", s)
 	return 0
@@ -159,6 +162,7 @@ type opPrim struct {
 var opValueMethods = map[string]opPrim{
 	"IsMarked":      {"OpsGo.isMarked", nil, []oShape{oBool}, false},
 	"IsKnown":       {"OpsGo.isKnown", nil, []oShape{oBool}, false},
+	"Type":          {"Value.ty", nil, []oShape{oTy}, false},
 	"Unmark":        {"OpsGo.unmark", nil, []oShape{oVal, oMarks}, true},
 	"True":          {"OpsGo.isTrue", nil, []oShape{oBool}, true},
 	"False":         {"OpsGo.isFalse", nil, []oShape{oBool}, true},
@@ -209,7 +213,6 @@ var opFuncPrims = map[string]opPrim{
 	"BoolVal":                {"Value.boolVal", []oShape{oBool}, []oShape{oVal}, false},
 	"NumberVal":              {"Value.numVal", []oShape{oFloat}, []oShape{oVal}, false},
 	"UnknownVal":             {"Value.unknown", []oShape{oTy}, []oShape{oVal}, false},
-	"typeCheck":              {"OpsGo.typeCheck", []oShape{oTy, oTy, oVals}, []oShape{oPtr, oErr}, true},
 	"numericRangeArithmetic": {"OpsGo.numericRangeArithmetic", []oShape{oMethod, oRange, oRange}, []oShape{oRefiner}, true},
 }
 
@@ -224,7 +227,9 @@ type opUnit struct {
 	params    []leanVar
 	shapes    []oShape
 	variadic  bool
-	ret       oShape
+	rets      []oShape
+	helpers   []string // loop helpers, emitted before the function
+	nloops    int
 	body      string
 	calls     map[string]bool // translated functions this body calls
 	line0     int
@@ -257,6 +262,7 @@ type opCtx struct {
 	u    *opUnit
 	used map[string]bool
 	hint []string // Go names of the variables that receive the answer of the call being translated
+	loopCont func(opEnv) string // inside a range loop: the next iteration
 }
 
 func (c *opCtx) fresh(base string) string {
@@ -312,15 +318,40 @@ func (t *opTr) translate(key string) {
 			u.variadic = sh == oVals
 		}
 	}
-	if fd.Type.Results == nil || len(fd.Type.Results.List) != 1 || len(fd.Type.Results.List[0].Names) != 0 {
-		dieAt(fd, "result list")
-	}
-	u.ret = oGoTypeShape(fd.Type.Results.List[0].Type, src(fd.Type.Results.List[0].Type))
+	u.rets = opResultShapes(fd)
 	u.body = c.stmts(fd.Body.List, en, func(opEnv) string {
 		dieAt(fd.Body, "control reaches the end of a function with a result")
 		return ""
 	})
 	t.order = append(t.order, key)
+}
+
+// opResultShapes: one or two results; names of results are not variables of the translation (a bare `return` or a
+// use of a named result is outside the fragment)
+func opResultShapes(fd *ast.FuncDecl) []oShape {
+	var out []oShape
+	if fd.Type.Results != nil {
+		for _, f := range fd.Type.Results.List {
+			n := len(f.Names)
+			if n == 0 {
+				n = 1
+			}
+			for i := 0; i < n; i++ {
+				out = append(out, oGoTypeShape(f.Type, src(f.Type)))
+			}
+		}
+	}
+	if len(out) < 1 || len(out) > 2 {
+		dieAt(fd, "result list")
+	}
+	return out
+}
+
+func opRetType(rets []oShape) string {
+	if len(rets) == 1 {
+		return atomType(oLeanType(rets[0]))
+	}
+	return "(" + oLeanType(rets[0]) + " × " + oLeanType(rets[1]) + ")"
 }
 
 // ---------------------------------------------------------------- statements
@@ -378,11 +409,18 @@ func (c *opCtx) stmts(list []ast.Stmt, en opEnv, k func(opEnv) string) string {
 	next := func(e opEnv) string { return c.stmts(rest, e, k) }
 	switch s := list[0].(type) {
 	case *ast.ReturnStmt:
-		if len(s.Results) != 1 {
+		if len(s.Results) != len(c.u.rets) {
 			dieAt(s, "return with %d values", len(s.Results))
 		}
+		if len(s.Results) == 2 {
+			b1, v1 := c.expr(s.Results[0], en)
+			v1 = c.coerce(s.Results[0], v1, c.u.rets[0])
+			b2, v2 := c.expr(s.Results[1], en)
+			v2 = c.coerce(s.Results[1], v2, c.u.rets[1])
+			return wrap(append(b1, b2...), "(Res.ok ("+v1.e+", "+v2.e+"))")
+		}
 		bs, v := c.expr(s.Results[0], en)
-		v = c.coerce(s.Results[0], v, c.u.ret)
+		v = c.coerce(s.Results[0], v, c.u.rets[0])
 		if n := len(bs); n > 0 && bs[n-1].pat == v.e {
 			return wrap(bs[:n-1], bs[n-1].rhs) // tail call
 		}
@@ -485,6 +523,13 @@ func (c *opCtx) stmts(list []ast.Stmt, en opEnv, k func(opEnv) string) string {
 		dieAt(s, "call %s used as a statement has no modelled effect", src(call))
 	case *ast.AssignStmt:
 		return c.assign(s, en, next)
+	case *ast.RangeStmt:
+		return c.rangeStmt(s, en, next)
+	case *ast.BranchStmt:
+		if s.Tok == token.CONTINUE && s.Label == nil && c.loopCont != nil {
+			return c.loopCont(en)
+		}
+		dieAt(s, "%s", s.Tok)
 	}
 	dieAt(list[0], "statement %s", strings.TrimPrefix(fmt.Sprintf("%T", list[0]), "*ast."))
 	return ""
@@ -529,6 +574,99 @@ func (c *opCtx) scopeExit(at ast.Node, outer, inner opEnv) opEnv {
 		}
 	}
 	return out
+}
+
+// rangeStmt: `for i, v := range values {…}` over a ...Value parameter becomes a structurally recursive helper over
+// the list; its state is the outer variables the body assigns, its base case is the code after the loop.
+// `continue` is the next iteration; break, labels and nested loops are outside the fragment.
+func (c *opCtx) rangeStmt(s *ast.RangeStmt, en opEnv, after func(opEnv) string) string {
+	if c.loopCont != nil {
+		dieAt(s, "nested loop")
+	}
+	if s.Tok != token.DEFINE {
+		dieAt(s, "range without :=")
+	}
+	xb, x := c.expr(s.X, en)
+	if x.sh != oVals {
+		dieAt(s.X, "range over %s", src(s.X))
+	}
+	keyName, valName := "", ""
+	if s.Key != nil {
+		keyName = identOr(s.Key, "")
+	}
+	if s.Value != nil {
+		valName = identOr(s.Value, "")
+	}
+	isState := map[string]bool{}
+	ast.Inspect(s.Body, func(n ast.Node) bool {
+		switch b := n.(type) {
+		case *ast.BranchStmt:
+			if b.Tok != token.CONTINUE || b.Label != nil {
+				dieAt(b, "%s in a loop", b.Tok)
+			}
+		case *ast.AssignStmt:
+			for _, l := range b.Lhs {
+				id, ok := l.(*ast.Ident)
+				if !ok {
+					continue
+				}
+				if _, outer := en[id.Name]; outer {
+					if b.Tok == token.DEFINE {
+						dieAt(b, "loop body declares %s again", id.Name)
+					}
+					isState[id.Name] = true
+				}
+			}
+		}
+		return true
+	})
+	var names []string
+	for n := range en {
+		names = append(names, n)
+	}
+	sort.Strings(names)
+	c.u.nloops++
+	name := fmt.Sprintf("%s_loop%d", c.u.name, c.u.nloops)
+	inner := opEnv{}
+	var capDecl, capNames, capArgs, stPats, stTypes, stInit, state []string
+	for _, n := range names {
+		v := en[n]
+		if v.sh == oIndex {
+			continue
+		}
+		p := c.fresh(n)
+		inner[n] = opVal{sh: v.sh, e: p}
+		if isState[n] {
+			state, stPats, stTypes, stInit = append(state, n), append(stPats, p), append(stTypes, atomType(oLeanType(v.sh))), append(stInit, v.e)
+		} else {
+			capDecl, capNames, capArgs = append(capDecl, "("+p+" : "+oLeanType(v.sh)+")"), append(capNames, p), append(capArgs, v.e)
+		}
+	}
+	head, tail := c.fresh(identOr(s.Value, "v")), c.fresh("rest")
+	body := inner
+	if valName != "" {
+		body = body.with(valName, opVal{sh: oVal, e: head})
+	}
+	if keyName != "" {
+		body = body.with(keyName, opVal{sh: oIndex})
+	}
+	callNext := func(e opEnv) string {
+		parts := append([]string{name}, capNames...)
+		for _, n := range state {
+			parts = append(parts, e[n].e)
+		}
+		return "(" + strings.Join(append(parts, tail), " ") + ")"
+	}
+	c.loopCont = callNext
+	stepT := c.stmts(s.Body.List, body, callNext)
+	c.loopCont = nil
+	restT := after(inner)
+	pat := func(last string) string { return strings.Join(append(append([]string{}, stPats...), last), ", ") }
+	c.u.helpers = append(c.u.helpers, fmt.Sprintf("/-- the `for %s := range %s` loop of `%s`, and what follows it -/\ndef %s %s : %s → Res %s\n  | %s =>\n%s\n  | %s =>\n%s\n",
+		rangeVars(s), src(s.X), c.u.key, name, strings.Join(capDecl, " "), strings.Join(append(append([]string{}, stTypes...), "List Value"), " → "), opRetType(c.u.rets),
+		pat("[]"), indent(indent(restT)), pat(head+" :: "+tail), indent(indent(stepT))))
+	parts := append(append([]string{name}, capArgs...), stInit...)
+	return wrap(xb, "("+strings.Join(append(parts, x.e), " ")+")")
 }
 
 func (c *opCtx) pureAssigns(list []ast.Stmt, en opEnv) opEnv {
@@ -583,6 +721,18 @@ func (c *opCtx) assign(s *ast.AssignStmt, en opEnv, next func(opEnv) string) str
 		v.named, v.lit = "", false
 		return e.with(name, v)
 	}
+	if ta, ok := s.Rhs[0].(*ast.TypeAssertExpr); ok && len(s.Lhs) == 2 && len(s.Rhs) == 1 && define {
+		// _, unknown := v.v.(*unknownType)
+		sel, ok := ta.X.(*ast.SelectorExpr)
+		if !ok || sel.Sel.Name != "v" || ta.Type == nil || src(ta.Type) != "*unknownType" || lhsName(s.Lhs[0]) != "" {
+			dieAt(s, "two-valued type assertion %s", src(s))
+		}
+		bs, v := c.expr(sel.X, en)
+		if v.sh != oVal {
+			dieAt(s, "two-valued type assertion %s", src(s))
+		}
+		return wrap(bs, next(store(en, lhsName(s.Lhs[1]), opVal{sh: oBool, e: "(Value.isUnk " + v.e + ")"})))
+	}
 	if len(s.Lhs) == 2 && len(s.Rhs) == 1 {
 		call, ok := s.Rhs[0].(*ast.CallExpr)
 		if !ok {
@@ -620,6 +770,9 @@ func (c *opCtx) coerce(at ast.Node, v opVal, want oShape) opVal {
 	}
 	if v.sh == oNil && want == oPtr {
 		return opVal{sh: oPtr, e: "(none : Option Value)"}
+	}
+	if v.sh == oNil && want == oErr {
+		return opVal{sh: oErr, e: "(none : Option String)"}
 	}
 	if v.lit && want == oInt {
 		return opVal{sh: oInt, e: v.e}
@@ -677,6 +830,9 @@ func (c *opCtx) expr(e ast.Expr, en opEnv) ([]bind, opVal) {
 			}
 			if id, ok := x.X.(*ast.Ident); ok {
 				if v, ok := en[id.Name]; ok && v.sh == oVal {
+					return nil, opVal{sh: oPtr, e: "(some " + v.e + ")"}
+				}
+				if v, ok := opNamed[id.Name]; ok && v.sh == oVal && !hasOpKey(en, id.Name) {
 					return nil, opVal{sh: oPtr, e: "(some " + v.e + ")"}
 				}
 			}
@@ -866,7 +1022,7 @@ func (c *opCtx) prim(p opPrim, recv string, call *ast.CallExpr, en opEnv, base s
 }
 
 // callUnit: a call of a translated function; the head is a hole resolved when the recursive groups are known
-func (c *opCtx) callUnit(key string, recv *opVal, call *ast.CallExpr, en opEnv) ([]bind, []opVal) {
+func (c *opCtx) callUnit(key string, recv *opVal, call *ast.CallExpr, en opEnv, hint []string) ([]bind, []opVal) {
 	fd := c.t.funcs[key]
 	if fd == nil {
 		dieAt(call, "call of %s, which is neither translated nor part of the given API", key)
@@ -890,7 +1046,7 @@ func (c *opCtx) callUnit(key string, recv *opVal, call *ast.CallExpr, en opEnv) 
 			shapes = append(shapes, oGoTypeShape(f.Type, src(f.Type)))
 		}
 	}
-	ret := oGoTypeShape(fd.Type.Results.List[0].Type, src(fd.Type.Results.List[0].Type))
+	rets := opResultShapes(fd)
 	variadic := len(shapes) > 0 && shapes[len(shapes)-1] == oVals
 	nfix := len(shapes)
 	if variadic {
@@ -925,7 +1081,15 @@ func (c *opCtx) callUnit(key string, recv *opVal, call *ast.CallExpr, en opEnv) 
 		dieAt(call, "call %s", src(call))
 	}
 	c.u.calls[key] = true
-	b2, r := c.bindRes("x", "("+opCallHole(key)+" "+strings.Join(args, " ")+")", ret)
+	text := "(" + opCallHole(key) + " " + strings.Join(args, " ") + ")"
+	if len(rets) == 2 {
+		if len(hint) != 2 {
+			hint = []string{"x", "y"}
+		}
+		a, b := c.fresh(hint[0]), c.fresh(hint[1])
+		return append(bs, bind{"(" + a + ", " + b + ")", text}), []opVal{{sh: rets[0], e: a}, {sh: rets[1], e: b}}
+	}
+	b2, r := c.bindRes("x", text, rets[0])
 	return append(bs, b2...), []opVal{r}
 }
 
@@ -942,19 +1106,25 @@ func (c *opCtx) call(call *ast.CallExpr, en opEnv) ([]bind, []opVal) {
 			return nil, []opVal{{sh: oFloat, e: "OpsGo.Float.new", fresh: true}}
 		}
 		if p, ok := opFuncPrims[f.Name]; ok {
-			if f.Name == "typeCheck" { // typeCheck(required, ret, values...)
-				if !call.Ellipsis.IsValid() || len(call.Args) != 3 {
-					dieAt(call, "call %s", src(call))
-				}
-				cp := *call
-				cp.Ellipsis = token.NoPos
-				restore()
-				return c.prim(p, "", &cp, en, "shortCircuit")
-			}
 			return c.prim(p, "", call, en, "x")
 		}
-		return c.callUnit(f.Name, nil, call, en)
+		return c.callUnit(f.Name, nil, call, en, hint)
 	case *ast.SelectorExpr:
+		if src(f) == "fmt.Errorf" && !hasOpKey(en, "fmt") {
+			// an error value is read as the constant head of its format string; the arguments are not evaluated
+			if len(call.Args) == 0 {
+				dieAt(call, "call %s", src(call))
+			}
+			bl, ok := call.Args[0].(*ast.BasicLit)
+			if !ok || bl.Kind != token.STRING {
+				dieAt(call, "error format %s", src(call.Args[0]))
+			}
+			format, _ := strconv.Unquote(bl.Value)
+			if i := strings.IndexAny(format, ":%"); i >= 0 {
+				format = format[:i]
+			}
+			return nil, []opVal{{sh: oErr, e: "(OpsGo.errorf " + leanStr(strings.TrimSpace(format)) + ")"}}
+		}
 		rb, r := c.expr(f.X, en)
 		name := f.Sel.Name
 		if r.sh == oPtr { // method call through a *Value
@@ -988,7 +1158,7 @@ func (c *opCtx) call(call *ast.CallExpr, en opEnv) ([]bind, []opVal) {
 				bs, vs := c.prim(p, r.e, call, en, opBase(name))
 				return append(rb, bs...), vs
 			}
-			bs, vs := c.callUnit("Value."+name, &r, call, en)
+			bs, vs := c.callUnit("Value."+name, &r, call, en, hint)
 			return append(rb, bs...), vs
 		case oBuilder:
 			if p, ok := opBuilderMethods[name]; ok {
@@ -1120,10 +1290,19 @@ func (t *opTr) emit() (string, int) {
 			}
 			return strings.Join(ds, " "), strings.Join(ts, " → "), strings.Join(ns, " "), strings.Join(us, ", ")
 		}
+		for _, k := range comp {
+			if recursive && len(t.units[k].helpers) > 0 {
+				dieAt(t.units[k].fd, "a loop in a recursive function")
+			}
+			for _, h := range t.units[k].helpers {
+				b.WriteString(resolve(h) + "\n")
+				ndefs++
+			}
+		}
 		if !recursive {
 			u := t.units[comp[0]]
 			decl, _, _, _ := sig(u)
-			fmt.Fprintf(&b, "%sdef %s %s : Res %s :=\n%s\n\n", doc(u), u.name, decl, atomType(oLeanType(u.ret)), indent(resolve(u.body)))
+			fmt.Fprintf(&b, "%sdef %s %s : Res %s :=\n%s\n\n", doc(u), u.name, decl, opRetType(u.rets), indent(resolve(u.body)))
 			ndefs++
 			continue
 		}
@@ -1133,7 +1312,7 @@ func (t *opTr) emit() (string, int) {
 		for _, k := range comp {
 			u := t.units[k]
 			_, types, names, unders := sig(u)
-			fmt.Fprintf(&b, "%sdef %s_fuel : Nat → %s → Res %s\n  | 0, %s => Res.unmodelled\n  | fuel + 1, %s =>\n%s\n", doc(u), u.name, types, atomType(oLeanType(u.ret)), unders, strings.ReplaceAll(names, " ", ", "), indent(indent(resolve(u.body))))
+			fmt.Fprintf(&b, "%sdef %s_fuel : Nat → %s → Res %s\n  | 0, %s => Res.unmodelled\n  | fuel + 1, %s =>\n%s\n", doc(u), u.name, types, opRetType(u.rets), unders, strings.ReplaceAll(names, " ", ", "), indent(indent(resolve(u.body))))
 			ndefs++
 		}
 		if len(comp) > 1 {
@@ -1143,7 +1322,7 @@ func (t *opTr) emit() (string, int) {
 		for _, k := range comp {
 			u := t.units[k]
 			decl, _, names, _ := sig(u)
-			fmt.Fprintf(&b, "def %s %s : Res %s := %s_fuel opsFuel %s\n\n", u.name, decl, atomType(oLeanType(u.ret)), u.name, names)
+			fmt.Fprintf(&b, "def %s %s : Res %s := %s_fuel opsFuel %s\n\n", u.name, decl, opRetType(u.rets), u.name, names)
 			ndefs++
 		}
 	}
@@ -1178,13 +1357,15 @@ func translateOpsFns(repo, leanDir, hdr string) int {
 		fmt.Fprintf(&b, "--   %-28s cty/%s:%d-%d\n", r, u.file, u.line0, u.line1)
 	}
 	b.WriteString("-- NOT translated (given API, CtyModel/OpsGo.lean — the hand-written model's functions):\n" +
-		"--   typeCheck (helper.go: variadic range loop with `continue` and a two-valued error return — outside the fragment),\n" +
 		"--   Value.Equals (the C03 model Value.equals), Value.RawEquals (only against cty.Zero / the two infinities),\n" +
 		"--   Value.Range and the ValueRange accessors, numericRangeArithmetic (takes a method VALUE and recovers from its\n" +
 		"--   panics: closure + defer/recover; read with the method name as data), RefineWith / RefineNotNull / the\n" +
 		"--   RefinementBuilder chain of Absolute (translated separately from unknown_refinement.go into RefineFns.lean),\n" +
 		"--   Unmark / WithMarks / IsMarked / IsKnown / True / False, BoolVal / NumberVal / UnknownVal,\n" +
 		"--   the *big.Float methods (the Num model: Num.add, quo, mulP, addP, setIntP, cmp, minPrec, …).\n" +
+		"--   error values: fmt.Errorf(format, …) is read as the constant head of its format string (arguments not evaluated).\n" +
+		"-- Outside this translation's root list: the other methods of value_ops.go (Equals, RawEquals, GetAttr, Index,\n" +
+		"--   HasIndex, HasElement, Length, …; Equals and HasElement are modelled by hand in Ops.lean / Ops2.lean).\n" +
 		"-- A Go panic is Res.panic.  Recursion (marks prologue; LessThan/GreaterThan on range bounds) is not structural:\n" +
 		"-- each recursive group has a fuel argument, `opsFuel` is supplied, and the tie shows that it suffices.\n")
 	b.WriteString("import CtyModel.OpsGo\nset_option linter.unusedVariables false\nnamespace CtyModel.Generated.OpsFns\n\n")
